@@ -428,6 +428,28 @@ def run(tier):
             if controls_bad:
                 log("[C15] positive controls failed on the M side (printer/specialiser or build broken):", controls_bad[:3])
 
+            # ---------------- sets of generic operator overloads (c15_ops): which overload is chosen, G vs M
+            from checks import c15_ops
+            op_pairs = c15_ops.pairs()
+            if tier == 'quick':
+                rr = random.Random(seed * 7919 + 15)
+                rr.shuffle(op_pairs)
+                op_pairs = op_pairs[:128]
+
+            def op_job(k):
+                name, G, M = op_pairs[k]
+                return name, G, M, evaluate(sc, 'ops-%d' % k, G, M)
+            for name, G, M, ev in vlib.pmap(op_job, range(len(op_pairs))):
+                chk.note_case(('ops', name), nontrivial=ev['verdict'] in ('agree', 'violation'))
+                chk.count('operator_overload_set_pairs')
+                if ev['verdict'] == 'inconclusive':
+                    chk.inconclusive += 1
+                elif ev['verdict'] == 'violation':
+                    op, shapes, operands = name.split('|')
+                    report(chk, {'kind': ev['kind'], 'construct': 'operator-overload-set', 'features': 'operator=%s shapes=%s operands=%s' % (op, shapes, operands), 'detail': ev['detail']},
+                           G, M, ev, {'pair': name})
+            log("[C15] t=%.0fs operator overload sets done" % (time.time() - chk.t0))
+
             # ---------------- batches of random units
             progs = [Prog(seed, 'b%d' % i) for i in range(nprog)]
             solo_kinds = gen_mod.SOLO_KINDS
